@@ -72,19 +72,19 @@ CLAIMS = {
          'Deductive (pyvc+z3) for modularity_finetune_und and modularity_finetune_dir, whole function bodies, all networks with positive total weight (symmetric for _und), all gamma, all start '
          'partitions with arbitrary labels, all visiting orders: the returned labels are exactly 1..k (np.unique rank contract) and the returned q equals the modularity Q(W, ci, gamma) of the '
          'returned labels: the aggregation loops are proved to build the module-by-module aggregate, and the code-independent identity q_from_aggregate (trace(w)/s - gamma sum(w/s . w/s) = Q; '
-         'proved in Lean, DESIGN Appendix A.2) closes the gap. All other detectors (Louvain family incl. hierarchy levels, signed variants, probtune, community_louvain objectives, spectral '
+         'proved in Lean, DESIGN Appendix A.2) closes the gap. modularity_louvain_und (hierarchy=False) is proved END TO END as well: the node-moving sweeps of a level are used modularly through the proved fragment contract modularity_louvain_und#level, and the outer loop over hierarchy levels (lists ci/q of symbolic length, np.unique relabelling, composition of label vectors, aggregation of the working matrix, formula of q, stopping test, returned pair) is proved with the invariant `working matrix = aggregate of the ARGUMENT under the current labels of the original nodes`, using the Lean-proved identity that aggregation composes (agg_compose); result: labels exactly 1..k, q = Q(argument, returned labels) unless no level was accepted (then q = -1 with singleton labels, which needs Q(singletons) <= -1 + 1e-10: impossible for gamma < 2, covered by the bounded tier). All other detectors (modularity_louvain_dir = known finding, hierarchy=True output, signed variants, probtune, community_louvain objectives, spectral '
          'modularity_und/_dir and the given-partition branches) are bounded only: independent O(n^2) reference formulas on all graphs n<=4 (weights {0,1,2}), all start partitions, all visiting '
          'orders n<=4, gamma in {.8,1,1.3}, all qtypes.',
          PROOF_NOTE + ' Modularity lemmas (gain, q_from_aggregate, relabelling, node-to-module sum identities) are assumed in SMT and proved separately in Lean; nonlinear products kept uninterpreted.',
-         'pyvc + z3 + Lean-proved modularity identities for finetune_und/_dir; bounded independent-reference check for the remaining detectors', '5/C02'),
+         'pyvc + z3 + Lean-proved modularity identities for finetune_und/_dir and modularity_louvain_und (modular use of the level fragment); bounded independent-reference check for the remaining detectors', '5/C02'),
  'C07': ('proof',
          'Deductive (pyvc+z3) for modularity_finetune_und and modularity_finetune_dir: loop invariant KInv (node-to-module sums knm, node degrees, module degrees equal their definitions for the '
          'current labels: established by the initialisation loops, preserved by every move via the single-label-change update axioms) and Q(current labels) >= Q(start labels): the gain the '
          'code computes is proved equal to the expression of the gain lemma (Qraw_move + nm_modularity, proved in Lean, DESIGN Appendix A), a move is accepted only if it exceeds 1e-10, hence '
-         'every accepted move raises Q; the final relabelling does not change Q. For modularity_louvain_und and community_louvain ONE hierarchy level (initialisation of the bookkeeping + all node-moving sweeps) is proved the same way as a fragment contract for an arbitrary working matrix / objective matrix (assumed at level entry: symmetric aggregate, s = its total; consistent Hnm); the same fragment contract on modularity_louvain_dir leaves exactly the obligations of the known finding open (knm_i initialisation, exchanged updates). The composition of levels, the Louvain family end to end, the signed variants and community_louvain are bounded only: a monitor woven into the real '
+         'every accepted move raises Q; the final relabelling does not change Q. For modularity_louvain_und and community_louvain ONE hierarchy level (initialisation of the bookkeeping + all node-moving sweeps) is proved the same way as a fragment contract for an arbitrary working matrix / objective matrix (assumed at level entry: symmetric aggregate, s = its total; consistent Hnm); the same fragment contract on modularity_louvain_dir leaves exactly the obligations of the known finding open (knm_i initialisation, exchanged updates). For modularity_louvain_und the levels are COMPOSED deductively (whole-function contract using the level fragment modularly; invariant Q(argument, current labels of the original nodes) >= Q(argument, singletons), via the Lean-proved composition of aggregation): the returned partition is never worse than singletons, for all symmetric networks with positive total weight, all gamma, all visiting orders, any number of levels. The composition of levels for community_louvain and the signed variants, and hierarchy=True output, are bounded only: a monitor woven into the real '
          'functions compares the claimed gain of every move with the exact change of an independent reference Q (all graphs n<=4, all start partitions, all visiting orders, hierarchy levels).',
          PROOF_NOTE + ' Gain lemma and sum identities assumed in SMT (Lean-proved); nonlinear products kept uninterpreted with sign axioms for quotients.',
-         'pyvc + z3 + gain lemma for finetune_und/_dir; woven per-move gain monitor over exhaustive small scopes (bounded) for the other optimisers', '5/C07'),
+         'pyvc + z3 + gain lemma for finetune_und/_dir/_und_sign and modularity_louvain_und end to end; level fragments for the other Louvain routines; woven per-move gain monitor over exhaustive small scopes (bounded) for the rest', '5/C07'),
  'C12': ('other',
          'Mixed: deductive (pyvc+z3, all n, all s,t) for retrieve_shortest_path: under the abstract contract FloydConsistent(L, SPL, hops, Pmat) of its producer (next hop is an existing '
          'connection, hop count decreases by one, SPL[i,j] = L[i,p] + SPL[p,j], hops = 0 exactly for i = j or unreachable) the returned sequence starts at s, ends at t, has hops[s,t]+1 nodes, '
@@ -141,6 +141,13 @@ CLAIMS['C18'] = ('exploration',
                  'equation of mean_first_passage_time, PageRank positivity / dangling nodes, unit norm and basis independence for repeated eigenvalues, findwalks = matrix powers, all LAPACK results (residuals on connected '
                  'graphs n<=5, cycles, complete bipartite, regular, disjoint copies; d grid). Level is exploration because the numerical kernels and two of the six routines are bounded.',
                  BND_NOTE % 'C18' + LX, 'Lean proofs over the mechanically extracted source for the algebra around the LAPACK calls; residual checks on exhaustive small scopes (bounded) for the rest', '5/C18')
+CLAIMS['C19'] = ('exploration',
+                 'Partly deductive: 10 Lean theorems over the extracted real source of the nested helpers of nbs_bct (all group sizes, all real data): ttest2_stat_only equals the pooled-variance two-sample statistic '
+                 '(mean x - mean y) / (sqrt(((n1-1) var x + (n2-1) var y)/(n1+n2-2)) sqrt(1/n1+1/n2)), negated for tail=left, absolute value for tail=both, 0 under the zero-variance guard; swapping the two groups '
+                 'together with the tail leaves it unchanged, tail=both is swap-invariant, any reordering of subjects within a group leaves it unchanged; the same three facts for the paired statistic (joint permutation of '
+                 'pairs); the p-value statement is #{null >= component size}/k. BOUNDED only: suprathreshold components and their labels (get_components), the permutation loop that fills the null distribution, '
+                 'extent/intensity sizes, the end-to-end symmetry clauses (small subject sets, brute-force oracle). Level is exploration because the component and permutation logic is bounded.',
+                 BND_NOTE % 'C19' + LX, 'Lean proofs over the mechanically extracted t-statistic helpers and p-value statement; brute-force oracle on small subject sets (bounded) for the rest', '5/C19')
 NOT_YET = 'check not built yet in this round (see DESIGN.md section 10); no claim is made'
 
 def main():
@@ -176,7 +183,7 @@ def main():
         'engines': [
             {'name': 'pyvc', 'path': 'engine/pyvc', 'serves_properties': ['C01', 'C02', 'C03', 'C06', 'C07', 'C11', 'C12', 'C15', 'C16', 'C17'], 'kind_free_text': 'AST -> verification conditions -> z3/cvc5 over the real source, sidecar contracts (deductive, unbounded)'},
             {'name': 'pyframe', 'path': 'engine/pyframe', 'serves_properties': ['C05', 'C13'], 'kind_free_text': 'static frame (mutation/alias) and effect (RNG) obligations over the real AST'},
-            {'name': 'lean', 'path': 'engine/lean', 'serves_properties': ['C01', 'C02', 'C03', 'C04', 'C06', 'C07', 'C09', 'C10', 'C11', 'C14', 'C15', 'C18'], 'kind_free_text': 'Lean 4 + Mathlib: lemma library justifying every SMT axiom (VerifLemmas.lean) and numpy->Lean extraction of the real source with stored proofs (extract.py, ExtractedProofs.lean)'},
+            {'name': 'lean', 'path': 'engine/lean', 'serves_properties': ['C01', 'C02', 'C03', 'C04', 'C06', 'C07', 'C09', 'C10', 'C11', 'C14', 'C15', 'C18', 'C19'], 'kind_free_text': 'Lean 4 + Mathlib: lemma library justifying every SMT axiom (VerifLemmas.lean) and numpy->Lean extraction of the real source with stored proofs (extract.py, ExtractedProofs.lean)'},
             {'name': 'weave', 'path': 'engine/weave.py', 'serves_properties': sorted(CLAIMS), 'kind_free_text': 'bounded stand-in: the same contracts executed on the real functions over exhaustive small scopes with a scripted RandomState'},
         ],
         'checks': checks,
